@@ -167,7 +167,7 @@ static void record(uint64_t seed, const std::string& tier, const std::string& tr
 		double l0 = GammaLn(x), l1 = GammaLn(x + 1.0);
 		long double r0 = lgammal((long double)x), r1 = lgammal((long double)x + 1.0L);
 		double sc0 = std::max(1.0L, fabsl(r0)), sc1 = std::max(1.0L, fabsl(r1));
-		json ev = {{"e", "Rel"}, {"kind", "lnGamma"}, {"libq", quant((double)(l0 - r0), 8 * EPS * sc0)},
+		json ev = {{"e", "Rel"}, {"kind", "lnGamma"}, {"libq", quant((double)(l0 - r0), 32 * EPS * sc0)},
 				   {"recq", quant((double)((long double)l1 - (long double)l0 - logl((long double)x)), 8 * EPS * (sc0 + sc1 + std::fabs(std::log(x))))}};
 		if(x < 170.0)
 		{
